@@ -1831,3 +1831,156 @@ Section ProfileEntries.
     - intros [p [k [card Hc]]]. apply (pmem_not_nil _ p k). apply MI. exists card. assumption.
   Qed.
 End ProfileEntries.
+
+(** ** (c) with cleaning *)
+
+Lemma raw_profile_keys cfg I G ID P1 C0 :
+  annotate_all (p_tau cfg) (p_inverse cfg) G (adapt I) = inl ID ->
+  raw_profile cfg I ID = (P1, C0) ->
+  dkeys P1 = class_keys (targets_of cfg) I /\ dkeys C0 = dkeys P1.
+Proof.
+  intros HA HR. unfold raw_profile in HR.
+  destruct (init_annotated I (init_targets (targets_of cfg))) as [P0 C0'] eqn:HI.
+  injection HR as <- <-.
+  destruct (init_char _ _ _ _ HI) as [KP [KC _]].
+  destruct (annotate_all_char _ _ I G ID HA) as [HC _].
+  assert (KP1 : dkeys (build_profile (p_tau cfg) (p_inverse cfg) ID P0) = dkeys P0).
+  { apply dkeys_build. intros [i e] c Hie Hc. cbn [snd] in Hc.
+    rewrite KP. unfold class_keys. rewrite uniq_first_first_occ. apply In_first_occ.
+    apply in_or_app. right. apply (In_concat_map_snd I i (i_classes e)); [|assumption].
+    rewrite <- HC. unfold dmapv. apply in_map_iff. exists (i, e). split; [reflexivity | assumption]. }
+  rewrite KP1. split; assumption.
+Qed.
+
+Lemma clean_entry_strip ks e : clean_entry ks (strip_c e) = strip_c (clean_entry ks e).
+Proof. reflexivity. Qed.
+
+Lemma remove_iteration_strip ks P :
+  remove_iteration ks (dmapv strip_c P) = dmapv strip_c (remove_iteration ks P).
+Proof.
+  rewrite !remove_iteration_eq, <- dfilter_dmapv, !dmapv_dmapv. f_equal.
+Qed.
+
+Lemma has_features_false_strip e : has_features false (strip_c e) = has_features false e.
+Proof. reflexivity. Qed.
+
+Lemma has_features_true_false e : has_features true e = false -> has_features false e = false.
+Proof. unfold has_features. destruct (c_direct e); [reflexivity | discriminate]. Qed.
+
+(** whatever the run with inverse paths removes, the run without removes too *)
+Lemma shapes_to_remove_strip_incl labels P c :
+  In c (shapes_to_remove true labels P) -> In c (shapes_to_remove false labels (dmapv strip_c P)).
+Proof.
+  intros H. apply In_shapes_to_remove in H. destruct H as [e [He [NL NF]]].
+  apply In_shapes_to_remove. exists (strip_c e). split.
+  - unfold dmapv. apply in_map_iff. exists (c, e). split; [reflexivity | assumption].
+  - split; [assumption|]. rewrite has_features_false_strip. apply has_features_true_false. assumption.
+Qed.
+
+(** the two runs remove the same classes when no non-label class has inverse
+    features only *)
+Lemma shapes_to_remove_strip_eq labels P :
+  (forall c e, In (c, e) P -> ~ In c labels -> c_direct e = [] -> c_inverse e = []) ->
+  shapes_to_remove false labels (dmapv strip_c P) = shapes_to_remove true labels P.
+Proof.
+  intros H. rewrite !shapes_to_remove_eq.
+  induction P as [|[c e] P IH]; [reflexivity|].
+  cbn [dmapv map fst snd filter].
+  assert (E : removable false labels (c, strip_c e) = removable true labels (c, e)).
+  { unfold removable. cbn [fst snd]. destruct (mem_str c labels) eqn:ML; [reflexivity|]. cbn [negb andb].
+    f_equal. unfold has_features. cbn [strip_c c_direct c_inverse].
+    destruct (c_direct e) eqn:ED; [|reflexivity].
+    rewrite (H c e (or_introl eq_refl)); [reflexivity | apply mem_str_false; assumption | assumption]. }
+  rewrite E. unfold dmapv in IH.
+  destruct (removable true labels (c, e)); cbn [map fst]; rewrite IH; try reflexivity;
+    intros c' e' Hin; apply H; right; assumption.
+Qed.
+
+Lemma orig_labels_set_inverse cfg b : orig_labels (set_inverse cfg b) = orig_labels cfg.
+Proof. reflexivity. Qed.
+
+(** *** (c), any [p_remove_empty]: when both cleanings remove the same class
+    keys, the run without inverse paths is the stripped run with them *)
+Theorem profile_inverse_flag cfg I G :
+  (p_remove_empty cfg = true ->
+   forall ID P1 C0,
+     annotate_all (p_tau cfg) true G (adapt I) = inl ID ->
+     raw_profile (set_inverse cfg true) I ID = (P1, C0) ->
+     shapes_to_remove false (orig_labels cfg) (dmapv strip_c P1) =
+     shapes_to_remove true (orig_labels cfg) P1) ->
+  profile (set_inverse cfg false) I G =
+  match profile (set_inverse cfg true) I G with
+  | inl (P, C, ID) => inl (dmapv strip_c P, C, dmapv strip_i ID)
+  | inr e => inr e
+  end.
+Proof.
+  intros HK. rewrite !profile_result.
+  cbn [set_inverse p_tau p_inverse p_remove_empty]. rewrite !orig_labels_set_inverse.
+  rewrite annotate_all_inverse_flag.
+  destruct (annotate_all (p_tau cfg) true G (adapt I)) as [ID|e] eqn:HA; [|reflexivity].
+  destruct (raw_profile (set_inverse cfg true) I ID) as [P1 C0] eqn:E.
+  rewrite (raw_profile_strip cfg I ID P1 C0 E).
+  destruct (p_remove_empty cfg) eqn:HR; [|reflexivity].
+  rewrite (HK eq_refl ID P1 C0 eq_refl E), remove_iteration_strip. reflexivity.
+Qed.
+
+(** *** (c), any [p_remove_empty], no side condition: class counts and
+    instance features agree; a class kept by both runs has the same direct
+    counts, except under the type keys that are class keys removed by the run
+    without inverse paths (those entries are deleted there) *)
+Theorem profile_direct_independent_of_inverse_clean cfg I G Pt Ct IDt Pf Cf IDf :
+  profile (set_inverse cfg true) I G = inl (Pt, Ct, IDt) ->
+  profile (set_inverse cfg false) I G = inl (Pf, Cf, IDf) ->
+  Cf = Ct /\
+  IDf = dmapv strip_i IDt /\
+  (forall c, In c (dkeys Pf) -> In c (dkeys Pt)) /\
+  forall c et ef, dget Pt c = Some et -> dget Pf c = Some ef ->
+    forall p k card,
+      plook (c_direct ef) p k card =
+      if mem_str k (class_keys (targets_of cfg) I) && negb (mem_str k (dkeys Pf))
+      then 0 else plook (c_direct et) p k card.
+Proof.
+  rewrite !profile_result.
+  cbn [set_inverse p_tau p_inverse p_remove_empty]. rewrite !orig_labels_set_inverse.
+  rewrite annotate_all_inverse_flag.
+  destruct (annotate_all (p_tau cfg) true G (adapt I)) as [ID|e] eqn:HA; [|discriminate].
+  destruct (raw_profile (set_inverse cfg true) I ID) as [P1 C0] eqn:E.
+  rewrite (raw_profile_strip cfg I ID P1 C0 E).
+  destruct (raw_profile_keys (set_inverse cfg true) I G ID P1 C0 HA E) as [KP1 _].
+  change (targets_of (set_inverse cfg true)) with (targets_of cfg) in KP1.
+  intros Ht Hf. injection Ht as <- <- <-. injection Hf as <- <- <-.
+  split; [reflexivity|]. split; [reflexivity|].
+  destruct (p_remove_empty cfg) eqn:HR.
+  - set (Kt := shapes_to_remove true (orig_labels cfg) P1).
+    set (Kf := shapes_to_remove false (orig_labels cfg) (dmapv strip_c P1)).
+    assert (Incl : forall c, mem_str c Kt = true -> mem_str c Kf = true).
+    { intros c H. apply mem_str_In. apply shapes_to_remove_strip_incl. apply mem_str_In. assumption. }
+    assert (KfP1 : forall c, mem_str c Kf = true -> In c (dkeys P1)).
+    { intros c H. apply mem_str_In in H. apply In_shapes_to_remove in H. destruct H as [e [He _]].
+      rewrite <- (dkeys_dmapv strip_c P1). unfold dkeys. apply in_map_iff. exists (c, e). auto. }
+    split.
+    { intros c. rewrite !dkeys_remove_iteration, dkeys_dmapv, !filter_In. intros [H1 H2].
+      split; [assumption|]. unfold not_in in *. destruct (mem_str c Kt) eqn:M; [|reflexivity].
+      rewrite (Incl c M) in H2. discriminate. }
+    intros c et ef H1 H2 p k card.
+    rewrite dget_remove_iteration in H1, H2. rewrite dget_dmapv in H2.
+    destruct (mem_str c Kt); [discriminate|]. destruct (mem_str c Kf); [discriminate|].
+    destruct (dget P1 c) as [e|]; [|discriminate]. cbn in H1, H2.
+    injection H1 as <-. injection H2 as <-. cbn [clean_entry strip_c c_direct].
+    rewrite !plook_remove_keys_pdict.
+    rewrite dkeys_remove_iteration, dkeys_dmapv, <- KP1.
+    destruct (mem_str k Kf) eqn:MK.
+    + assert (M1 : mem_str k (dkeys P1) = true) by (apply mem_str_In, KfP1; assumption).
+      assert (M2 : mem_str k (filter (not_in Kf) (dkeys P1)) = false).
+      { apply mem_str_false. rewrite filter_In. intros [_ H]. unfold not_in in H. rewrite MK in H. discriminate. }
+      rewrite M1, M2. reflexivity.
+    + destruct (mem_str k Kt) eqn:MT; [rewrite (Incl k MT) in MK; discriminate|].
+      destruct (mem_str k (dkeys P1)) eqn:M1; [|reflexivity].
+      assert (M2 : mem_str k (filter (not_in Kf) (dkeys P1)) = true).
+      { apply mem_str_In. rewrite filter_In. split; [apply mem_str_In; assumption|]. unfold not_in. rewrite MK. reflexivity. }
+      rewrite M2. reflexivity.
+  - split; [intros c; rewrite dkeys_dmapv; auto|].
+    intros c et ef H1 H2 p k card. rewrite dget_dmapv, H1 in H2. cbn in H2. injection H2 as <-.
+    cbn [strip_c c_direct]. rewrite dkeys_dmapv, <- KP1.
+    destruct (mem_str k (dkeys P1)); reflexivity.
+Qed.
